@@ -442,7 +442,8 @@ def run_case(case):
         by_task = {}
         for tx in mon.tx_log:
             by_task.setdefault(tx.task, []).append(tx)
-        write_owner = [(tx.index, tx.task) for tx in mon.tx_log if tx.rolled_back is None and tx.writes > 0]
+        write_owner = [(tx.index, tx.task) for tx in mon.tx_log
+                       if tx.rolled_back is None and tx.writes > 0 and tx.changed is not False]
         # disconnects: every dropped request must have reached a handler that ran to completion
         pending = list(build.dropped)
         counters["dropped_sent"] += len(pending)
@@ -470,7 +471,9 @@ def run_case(case):
         for rec in mon.requests:
             counters["requests_seen"] += 1
             txs = [t for t in by_task.get(rec["task"], [])]
-            wrote = [t for t in txs if t.rolled_back is None and t.writes > 0]
+            # a transaction that only touched scratch tables (path_list) changed nothing that
+            # is stored: `changed` compares the persistent tables before and after the commit
+            wrote = [t for t in txs if t.rolled_back is None and t.writes > 0 and t.changed is not False]
             req = f"{rec['name']}(job {rec['job']}, {json.dumps(rec['args'])[:200]})"
             dropped = rec.get("dropped")
             pos = None
